@@ -192,6 +192,8 @@ def heap_assigned(stmts):
     return out
 
 
+TRUEDIV = z3.Function('py_truediv', z3.RealSort(), z3.RealSort(), z3.RealSort())
+
 CMP = {ast.Eq: '==', ast.NotEq: '!=', ast.Lt: '<', ast.LtE: '<=', ast.Gt: '>', ast.GtE: '>=',
        ast.In: 'in', ast.NotIn: 'not in', ast.Is: 'is', ast.IsNot: 'is not'}
 REFLECT = {'<': '>', '>': '<', '<=': '>=', '>=': '<=', '==': '==', '!=': '!='}
@@ -564,6 +566,11 @@ class Interp:
             if is_z3(nb) or nb == 0:
                 if not self.e.branch(rb != 0, 'divisor!=0'):
                     self.raise_('ZeroDivisionError')
+            if getattr(self, 'abstract_truediv', False):
+                # true division by a symbolic divisor as an uninterpreted function (keeps VCs linear): an
+                # over-approximation, proofs hold for every interpretation; the spec must use the same term
+                self.e.note('assumed: / by a symbolic divisor is an uninterpreted function of its operands')
+                return TRUEDIV(ra, rb)
             return ra / rb
         raise Unsupported(f'binary {op}')
 
@@ -693,6 +700,10 @@ class Interp:
                 return ClassRef(obj.cls, self.repo.get_class(obj.cls))
             if self.reg and self.reg.is_open(obj.cls):
                 return BoundMethod(obj, name)
+            if obj.cls == '<stale>' and self.reg and getattr(self.reg, 'on_stale_use', None):
+                # a local bound in an earlier loop iteration is used in the current one
+                self.reg.on_stale_use(self, obj, name)
+                raise PathEnd()
             if self.repo.get_class(obj.cls) is None:
                 # a sidecar model object: a missing attribute is a gap of the model, not of the code
                 self.unsupported(node, f'attribute {name} of modelled object {obj.cls}')
@@ -846,11 +857,11 @@ class Interp:
                 if r is True or (r is not False and self.e.branch(r, 'dictkey')):
                     return v
             self.raise_('KeyError', idx)
+        if hasattr(obj, 'sym_getitem'):
+            return obj.sym_getitem(self, idx)
         if isinstance(obj, View):
             i = self.norm_index(idx, obj.length())
             return obj.get(i)
-        if hasattr(obj, 'sym_getitem'):
-            return obj.sym_getitem(self, idx)
         if isinstance(obj, SymObj):
             hook = self.reg and self.reg.protocol(obj.cls, '__getitem__')
             if hook:
@@ -1783,6 +1794,21 @@ class Interp:
             it = a[0]
             if hasattr(it, 'sym_next'):
                 return it.sym_next(i, a[1:] )
+            if isinstance(it, (View, list)):
+                # enumerate()/reversed() results used as iterators: the object carries a cursor
+                # (loop-carried hidden state: a loop spec must havoc `_cursor` of the iterator)
+                v = it if isinstance(it, View) else conc_view(it)
+                pos = getattr(it, '_cursor', 0) if isinstance(it, View) else it and 0
+                if isinstance(it, list):
+                    raise Unsupported('next() on a list')
+                n = v.length()
+                c = i.compare('<', pos, n)
+                if c is True or (c is not False and i.e.branch(c, 'next:has-item')):
+                    it._cursor = pos + 1
+                    return v.get(pos)
+                if len(a) > 1:
+                    return a[1]
+                i.raise_('StopIteration')
             raise Unsupported(f'next() on {it!r}')
         def bi_iter(i, a, k):
             v = a[0]
@@ -1949,8 +1975,23 @@ class Interp:
                 v = v.sym_unpack(self, len(target.elts))
             if not isinstance(v, (list, tuple)):
                 self.unsupported(target, f'unpacking {v!r}')
-            if any(isinstance(t, ast.Starred) for t in target.elts):
-                self.unsupported(target, 'starred unpack')
+            stars = [i for i, t in enumerate(target.elts) if isinstance(t, ast.Starred)]
+            if stars:
+                if len(stars) > 1:
+                    self.unsupported(target, 'two starred targets')
+                si = stars[0]
+                nfix = len(target.elts) - 1
+                if len(v) < nfix:
+                    self.raise_('ValueError', 'not enough values to unpack')
+                v = list(v)
+                tail = nfix - si
+                mid = v[si:len(v) - tail]
+                for t, x in zip(target.elts[:si], v[:si]):
+                    self.assign(t, x, env)
+                self.assign(target.elts[si].value, list(mid), env)
+                for t, x in zip(target.elts[si + 1:], v[len(v) - tail:]):
+                    self.assign(t, x, env)
+                return
             if len(v) != len(target.elts):
                 self.raise_('ValueError', 'unpack')
             for t, x in zip(target.elts, v):
